@@ -3,6 +3,8 @@
 extern crate alloc;
 
 pub mod transcript;
+#[cfg(feature = "verif-hooks")]
+pub mod verif;
 
 #[cfg(test)]
 pub mod tests;
